@@ -275,7 +275,7 @@ func (r *c11Round) predicates(sp *c11Spec, prevKey kyber.Point) {
 			}
 			if n.faulty && !g.resharing && n.inOld {
 				df, jf := c11DealFaults[f.deal], c11JustFaults[f.just]
-				invalid := df == "badShare" || df == "misdirect" || df == "badShareAll" || df == "badCommit"
+				invalid := df == "badShare" || df == "misdirect" || df == "badShareAll" || df == "badCommit" || df == "nonScalarShare"
 				unjust := jf == "badJust" || jf == "noJust" || jf == "wrongSid"
 				if (invalid && unjust && !r.raw) || df == "absent" || df == "wrongThreshold" || df == "wrongSid" {
 					if inQual(d.result, n.oidx, true) {
